@@ -23,6 +23,8 @@
 //! ```
 
 #![deny(missing_docs)]
+// Verification hook (see /verif/DESIGN.md): only `cargo kani` sets cfg(kani)
+#![cfg_attr(kani, recursion_limit = "512")]
 
 include!(concat!(env!("OUT_DIR"), "/unicode_version.rs"));
 
